@@ -105,7 +105,7 @@ theorem subgraph_fn_eq_model (G : PyRawCont) (nodes : List Var) (connections : O
     cases k with
     | none => rfl
     | some k =>
-      simp only [Bool.not_eq_true, Bool.not_eq_false, sgStep, (sg_filters nodes [] k).1, (sg_filters nodes [] k).2, pyProd_eq_prodL, tail_eq_accumC]
+      simp only [Bool.not_eq_true, Bool.not_eq_false, List.map_id', sgStep, (sg_filters nodes [] k).1, (sg_filters nodes [] k).2, pyProd_eq_prodL, tail_eq_accumC]
       try (first
         | rfl
         | (split_ifs <;> first | rfl | simp_all))
@@ -118,7 +118,7 @@ theorem subgraph_fn_eq_model (G : PyRawCont) (nodes : List Var) (connections : O
     cases k with
     | none => rfl
     | some k =>
-      simp only [Bool.not_eq_true, Bool.not_eq_false, sgStep, (sg_filters nodes conn k).1, (sg_filters nodes conn k).2, pyProd_eq_prodL, tail_eq_accumC]
+      simp only [Bool.not_eq_true, Bool.not_eq_false, List.map_id', sgStep, (sg_filters nodes conn k).1, (sg_filters nodes conn k).2, pyProd_eq_prodL, tail_eq_accumC]
       try (first
         | rfl
         | (split_ifs <;> first | rfl | simp_all))
@@ -180,9 +180,9 @@ theorem subvalue_fn_eq_model (values : Assoc) (G : PyRawCont) :
   cases k with
   | none => rfl
   | some k =>
-    simp only [Bool.not_eq_true, Bool.not_eq_false, svStep, sv_key]
+    simp only [Bool.not_eq_true, Bool.not_eq_false, svStep, sv_key, List.map_id']
     rw [sv_mapM values _ (fun i => by simp only [bind_ok_self]) k]
-    simp only [ok_bind', pyProd_eq_prodL, tail_eq_accumC]
+    simp only [ok_bind', pyProd_eq_prodL, tail_eq_accumC, List.map_id']
     try (first
       | rfl
       | (split_ifs <;> first | rfl | simp_all))
